@@ -352,7 +352,7 @@ NSHARD = 16
 
 
 def plan(tier):
-    n = 500 if tier == 'quick' else 3000
+    n = 500 if tier == 'quick' else 6000
     return [{'kind': 'hyp', 'shard': i, 'examples': n} for i in range(NSHARD)]
 
 
